@@ -63,7 +63,7 @@ def run(ctx):
     ctx.rule("R7", "rule selection is the same for every front end: RuleCollection stores only rules that are not off, keeps one bucket per language (readers take the first), "
              "and every whole-collection accessor visits both the unscoped and the path-scoped rules")
     from . import rulecoll
-    rulecoll.invariants(ctx, "R7")
+    rulecoll.invariants(ctx, "R7", which=("rc1", "rc2", "rc3", "rc4", "rc5"))
     # the language server selects rules and the language by the document's FILE path (Url::to_file_path: percent-decoded, platform form),
     # as the CLI does by the path it walked — never by the URI's raw path component
     n_p = 0
@@ -292,6 +292,15 @@ def run(ctx):
                         roots += ultimate_roots(prog, ff, o.ref[2][2][0], TRANSPARENT | {"deref"})
                 ok = ok or any("version" in field_path(o.proj) for ff, o in roots)
         ctx.ob("R3", "published version is the document's stored version", ok, "client.publish_diagnostics(.., Some(versioned.version))", where=pd.loc())
+        # every accepted version is published: no return of Backend::publish_diagnostics without the client call (a "nothing changed,
+        # do not redraw" shortcut keyed on ranges and rule ids leaves the messages / fixes of the previous version on screen)
+        pdi = prog.inlined(pd)
+        pubs_i = [c for c in pdi.calls if c.name == "publish_diagnostics" and c.bb in pdi.live_blocks]
+        rets = [b for b in pdi.live_blocks if pdi.blocks[b]["t"][0] == "ret"]
+        skip = (not pubs_i) or path_avoiding(pdi, 0, {c.bb for c in pubs_i}, rets)
+        ctx.ob("R3", "every call of Backend::publish_diagnostics reaches the client", not skip,
+               "no return is reachable from the entry without client.publish_diagnostics" if not skip else
+               "Backend::publish_diagnostics can return without telling the client: the diagnostics on screen stay those of an older version of the document", where=pd.loc())
     cl = prog.find_fns(r"^ast_grep_lsp::Backend::<L>::on_close::\{closure#0\}$")
     if len(cl) == 1:
         ctx.ob("R3", "close removes the entry", any(c.name == "remove" for c in cl[0].calls), "on_close calls map.remove(uri)", where=cl[0].loc())
